@@ -286,23 +286,19 @@ func init() {
 			if fi == nil {
 				return
 			}
-			byObject, unified := false, false
+			byObject := false
+			var posMap *types.Var
 			fi.inspect(fi.Decl.Body, func(nd ast.Node) bool {
-				switch x := nd.(type) {
-				case *ast.CompositeLit, *ast.CallExpr:
-					if t := fi.Info.TypeOf(x.(ast.Expr)); t != nil {
+				if as, ok := nd.(*ast.AssignStmt); ok && len(as.Lhs) == 1 && len(as.Rhs) == 1 {
+					if t := fi.Info.TypeOf(as.Rhs[0]); t != nil {
 						if m, ok := t.Underlying().(*types.Map); ok {
 							switch types.TypeString(m.Key(), nil) {
 							case "go/types.Object":
 								byObject = true
 							case "go/token.Pos":
-								unified = true
+								posMap = fi.varOf(as.Lhs[0])
 							}
 						}
-					}
-				case *ast.SelectorExpr:
-					if x.Sel.Name == "Implicits" {
-						unified = true
 					}
 				}
 				return true
@@ -311,7 +307,42 @@ func init() {
 				r.Ok("rename/keyed-by-object", fi.Decl.Pos(), "the renaming pass does not key names by object")
 				return
 			}
-			r.Check(unified, "rename/type-switch-variable", fi.Decl.Pos(), "the per-clause objects of a type switch's symbolic variable and its declaring identifier receive the same new name")
+			// (a) at an identifier with no object that declares a type switch variable, the chosen name is stored by the
+			//     identifier's position; (b) an identifier whose object is positioned there is given that name
+			stored, consulted := false, false
+			if posMap != nil {
+				fi.inspect(fi.Decl.Body, func(nd ast.Node) bool {
+					ix, ok := nd.(*ast.IndexExpr)
+					if !ok || fi.varOf(ix.X) != posMap {
+						return true
+					}
+					pc := fi.isCall(ix.Index, "go/ast.Ident.Pos", "go/types.Object.Pos", "go/types.object.Pos")
+					if pc == nil {
+						return true
+					}
+					if as, isAs := fi.parent[ast.Node(ix)].(*ast.AssignStmt); isAs && len(as.Lhs) == 1 && as.Lhs[0] == ast.Expr(ix) {
+						// store: under "no object" and "declares a type switch variable"
+						noObj, tsDecl := false, false
+						for _, g := range fi.Guards(as) {
+							if x, isNil, ok := fi.nilTest(g); ok && isNil && fi.isCall(fi.deref(x), "go/types.Info.ObjectOf", pathW+".referencedObject") != nil {
+								noObj = true
+							}
+							if fi.isCall(g.Expr, pathW+".isTypeSwitchVarDecl") != nil && !g.Neg {
+								tsDecl = true
+							}
+						}
+						if noObj && tsDecl && strings.HasSuffix(fi.calleeName(pc), "Ident.Pos") {
+							stored = true
+						}
+						return true
+					}
+					if strings.Contains(fi.calleeName(pc), "bject.Pos") {
+						consulted = true
+					}
+					return true
+				})
+			}
+			r.Check(stored && consulted, "rename/type-switch-variable", fi.Decl.Pos(), "the name chosen at the declaration of a type switch variable is stored by position (%v) and given to every identifier whose object is positioned there (%v)", stored, consulted)
 		})
 	register("C17.R9", "a failing package does not prevent output for the others — also when it fails to load: errors the loader reports for one root package are attached to that package's result instead of aborting the invocation",
 		func(c *Ctx, r *R) {
@@ -396,5 +427,39 @@ func init() {
 				pos = gi.Decl.Pos()
 			}
 			r.Check(aware, "generate/cgo-translated-syntax", pos, "some function reachable from Generate distinguishes cgo-translated files")
+		})
+	register("C20.R8", "diagnostics point into the user's sources: an error about an item of a marker call is positioned at that item's expression; a position taken from the declaration of the object the item names (a provider function, a struct type) lies wherever that declaration is — in the standard library or a dependency for wire.Build(os.Exit) — and notePosition never replaces a position already attached",
+		func(c *Ctx, r *R) {
+			n, bad := 0, 0
+			for _, fi := range c.all {
+				if fi.Pkg != c.W {
+					continue
+				}
+				fi := fi
+				per := 0
+				for _, cl := range fi.callsTo(pathW+".notePosition", pathW+".notePositionAll") {
+					n++
+					pc := fi.isCall(cl.Args[0], "go/token.FileSet.Position")
+					if pc == nil {
+						continue
+					}
+					src := fi.deref(pc.Args[0])
+					oc := fi.isCall(src, "go/types.Object.Pos", "go/types.object.Pos", "go/types.Func.Pos", "go/types.TypeName.Pos", "go/types.Var.Pos")
+					if oc == nil {
+						continue
+					}
+					// positions of objects of the package being analysed are the user's own (injector functions, set variables in Load)
+					if fi.Name == "Load" || fi.Name == "generateInjectors" || fi.Name == "gen.inject" || fi.Name == "checkCalls" {
+						continue
+					}
+					per++
+					bad++
+					r.Bad(fi.Name+"/position-of-referenced-declaration#"+itoa(per), cl.Pos(), "the diagnostic is positioned at the declaration of the object a marker argument names (%s), which need not be in the user's sources", exprShort(pc.Args[0]))
+				}
+			}
+			if bad == 0 {
+				r.Ok("positions-from-marker-syntax", token.NoPos, "no diagnostic takes its position from a referenced declaration (%d sites)", n)
+			}
+			r.Floor("positioned diagnostics examined", n, 30)
 		})
 }
